@@ -59,6 +59,8 @@ const KNOWN_RULES: &[&str] = &[
     "cut_chain",
     "error_cause",
     "havoc_iter",
+    "opt_match",
+    "std_net",
 ];
 
 pub fn apply(repo: &str, req: &ItemReq, f: &mut FnUnderEdit) -> Result<(), String> {
@@ -162,6 +164,21 @@ pub fn apply(repo: &str, req: &ItemReq, f: &mut FnUnderEdit) -> Result<(), Strin
         }
         let n = v.n;
         f.fire("let_chain", n);
+    }
+    // R30 `std::net::X` -> `X` (the model types are named like the std types)
+    if has("std_net") {
+        let mut v = StdNet { n: 0 };
+        v.visit_block_mut(&mut f.block);
+        v.visit_signature_mut(&mut f.sig);
+        let n = v.n;
+        f.fire("std_net", n);
+    }
+    // R29 Option combinators with a function argument -> match
+    if has("opt_match") {
+        let mut v = OptMatch { n: 0 };
+        v.visit_block_mut(&mut f.block);
+        let n = v.n;
+        f.fire("opt_match", n);
     }
     if has("closure_wild") {
         let mut v = ClosureWild { n: 0 };
@@ -571,6 +588,99 @@ impl VisitMut for StripLog {
             if chain_root_path(&init.expr).as_deref() == Some("tracing::Span::current") {
                 *init.expr = syn::parse_quote!(vx_trace_id_string());
                 self.n += 1;
+            }
+        }
+    }
+}
+
+// ---------------------------------------------------------------- R30
+struct StdNet {
+    n: usize,
+}
+impl VisitMut for StdNet {
+    fn visit_path_mut(&mut self, p: &mut syn::Path) {
+        visit_mut::visit_path_mut(self, p);
+        if p.segments.len() >= 3 && p.segments[0].ident == "std" && p.segments[1].ident == "net" {
+            let rest: Vec<syn::PathSegment> = p.segments.iter().skip(2).cloned().collect();
+            p.leading_colon = None;
+            p.segments = rest.into_iter().collect();
+            self.n += 1;
+        }
+    }
+}
+
+// ---------------------------------------------------------------- R29
+/// `o.map_or(D, F)` -> `match o { Some(v) => F(v), None => D }`, `o.is_some_and(F)` -> `match o { Some(v) => F(v), None => false }`
+/// where F is a closure literal without `return` (its body is substituted with `let <pat> = v;`) or a path (called as a
+/// function, so a datatype constructor becomes a constructor expression) and D is a path, literal or field access
+/// (no evaluation to reorder). Anything else is left as it is. On a receiver that is not an `Option` the result does not
+/// type-check, which ends the run with exit 2.
+struct OptMatch {
+    n: usize,
+}
+fn opt_simple_default(e: &syn::Expr) -> bool {
+    match e {
+        syn::Expr::Path(_) | syn::Expr::Lit(_) => true,
+        syn::Expr::Field(f) => opt_simple_default(&f.base),
+        syn::Expr::Paren(p) => opt_simple_default(&p.expr),
+        syn::Expr::Reference(r) => opt_simple_default(&r.expr),
+        _ => false,
+    }
+}
+struct HasReturn(bool);
+impl<'ast> syn::visit::Visit<'ast> for HasReturn {
+    fn visit_expr_return(&mut self, _: &'ast syn::ExprReturn) {
+        self.0 = true;
+    }
+    fn visit_expr_try(&mut self, _: &'ast syn::ExprTry) {
+        self.0 = true;
+    }
+}
+fn opt_apply(f: &syn::Expr, v: &syn::Ident) -> Option<syn::Expr> {
+    match f {
+        syn::Expr::Path(p) => Some(syn::parse_quote!(#p(#v))),
+        syn::Expr::Closure(c) if c.inputs.len() == 1 && c.asyncness.is_none() => {
+            let mut hr = HasReturn(false);
+            syn::visit::Visit::visit_expr(&mut hr, &c.body);
+            if hr.0 {
+                return None;
+            }
+            let pat = match &c.inputs[0] {
+                syn::Pat::Type(t) => {
+                    let (p, ty) = (&t.pat, &t.ty);
+                    quote::quote!(#p: #ty)
+                }
+                p => quote::quote!(#p),
+            };
+            let body = &c.body;
+            Some(syn::parse_quote!({ let #pat = #v; #body }))
+        }
+        _ => None,
+    }
+}
+impl VisitMut for OptMatch {
+    fn visit_expr_mut(&mut self, e: &mut syn::Expr) {
+        visit_mut::visit_expr_mut(self, e);
+        if let syn::Expr::MethodCall(m) = e {
+            let name = m.method.to_string();
+            let v = syn::Ident::new("__vx_v", proc_macro2::Span::call_site());
+            let recv = &m.receiver;
+            if name == "map_or" && m.args.len() == 2 && opt_simple_default(&m.args[0]) {
+                if let Some(app) = opt_apply(&m.args[1], &v) {
+                    let d = &m.args[0];
+                    *e = syn::parse_quote!(match #recv { Some(#v) => #app, None => #d });
+                    self.n += 1;
+                }
+            } else if name == "is_some_and" && m.args.len() == 1 {
+                if let Some(app) = opt_apply(&m.args[0], &v) {
+                    *e = syn::parse_quote!(match #recv { Some(#v) => #app, None => false });
+                    self.n += 1;
+                }
+            } else if name == "is_none_or" && m.args.len() == 1 {
+                if let Some(app) = opt_apply(&m.args[0], &v) {
+                    *e = syn::parse_quote!(match #recv { Some(#v) => #app, None => true });
+                    self.n += 1;
+                }
             }
         }
     }
